@@ -88,9 +88,15 @@ def run(tier, seed):
               'contains() of every built parameter on 28 candidate values of all kinds; flat spaces with near-miss assignments (missing / '
               'extra keys, wrong kinds); conditional spaces walked by SequentialParameterBuilder (dfs and bfs) with random choices; '
               'add_* builders with invalid arguments; non-trivial = invalid definition, near-miss assignment or conditional walk')
-  rep.trusted = ['Coq 8.16.1 kernel + vm_compute', 'exact rationals + {inf, nan} instead of IEEE doubles', 'harness/props/c16.py oracle']
+  rep.trusted = ['Coq 8.16.1 kernel + vm_compute', 'harness/translate/pcfactory.py (Python-ast translator of ParameterConfig.factory into a decision tree, helper bodies pinned, fail-closed)', 'exact rationals + {inf, nan} instead of IEEE doubles', 'harness/props/c16.py oracle']
+  tbroke = None
+  try:
+    from harness.translate import pcfactory
+    C.write_gen('Gen/FactorySrc.v', pcfactory.translate(C.REPO))
+  except Exception as e:  # pylint: disable=broad-except
+    tbroke = 'translator harness/translate/pcfactory.py refused parameter_config.py: %r' % (e,)
   C.standard_proof_step(rep, 'C16')
-  broke = rep.proof_broken
+  broke = ((tbroke or '') + ' ' + (rep.proof_broken or '')).strip() or None
   concrete = False
   r = C.rng(seed, 'c16')
   N = 400 if tier == 'quick' else 6000
@@ -435,7 +441,10 @@ def run(tier, seed):
     bad_calls = [lambda: space.root.add_float_param('x', 0.0, 2.0), lambda: space.root.add_int_param('', 1, 2),
                  lambda: space.root.add_float_param('y', 1.0, 0.0), lambda: space.root.add_float_param('z', 0.0, math.inf),
                  lambda: space.root.add_discrete_param('d', [1.0, 1.0]), lambda: space.root.select('x', [0.5]).add_int_param('k', 1, 2),
-                 lambda: space.root.add_categorical_param('c', ['q'])]
+                 lambda: space.root.add_categorical_param('c', ['q']),
+                 # an empty name stays empty when an index or a length composes 'name[i]' around it
+                 lambda: space.root.add_float_param('', 0.0, 1.0, index=0), lambda: space.root.add_int_param('', 1, 3, length=2),
+                 lambda: space.root.add_discrete_param('', [1.0, 2.0], index=1), lambda: space.root.add_categorical_param('', ['a'], index=0)]
     # children under a continuous parameter, also a degenerate one (lower bound = upper bound), by every route
     space.root.add_float_param('p', 0.5, 0.5)
     space.root.add_float_param('w', 0.25, 0.75, scale_type=vz.ScaleType.LOG)
